@@ -439,6 +439,7 @@ func evBitBackList(t *Tracer, qs []QK, hz, ovz, S, mn, mx int64) {
 
 func driveTiles(t *Tracer, r Rng, n int) {
 	driveTileTwins(t, r, n/8)
+	driveAltKeyTwins(t, r, n/8)
 	for i := 0; i < n; {
 		E := r.In(0, 35)
 		O := r.offset()
@@ -886,14 +887,22 @@ func unionLaw(t *Tracer, name string, args map[string]any, n int, f func(idx []i
 	}
 	whole, bad := f(all)
 	set := map[string]bool{}
+	memberErr := false
 	for i := 0; i < n; i++ {
 		one, b1 := f([]int{i})
+		if b1 == "outcome err" {
+			memberErr = true
+			continue
+		}
 		if b1 != "" && bad == "" {
 			bad = b1
 		}
 		for _, x := range one {
 			set[x] = true
 		}
+	}
+	if memberErr && (bad == "" || bad == "outcome err") {
+		return // a member is refused on its own: whatever the list call does with it, the union law has no case
 	}
 	parts := make([]string, 0, len(set))
 	for x := range set {
@@ -972,6 +981,53 @@ func driveTileTwins(t *Tracer, r Rng, n int) {
 			ss := []string{}
 			for _, id := range res.([]object.ExtendedSpatialID) {
 				ss = append(ss, id.ID())
+			}
+			return ss, ""
+		})
+	}
+}
+
+// driveAltKeyTwins: the same for IDs -> (quadkey, altitude key) pairs (C11 / C12)
+func driveAltKeyTwins(t *Tracer, r Rng, n int) {
+	for i := 0; i < n; i++ {
+		v1 := r.Pick(32, 33, 34, 35, 0, 1, 2, 3, 16, 17, 20)
+		n1 := int64(1) << uint(v1)
+		f1 := r.In(-3, 3)
+		if f1 < -n1 || f1 > n1-1 {
+			f1 = r.In(-n1, n1-1)
+		}
+		v2, f2, ok := packedTwin(r, v1, f1)
+		if !ok {
+			continue
+		}
+		if n2 := int64(1) << uint(v2); f2 < -n2 || f2 > n2-1 {
+			continue
+		}
+		h := r.In(8, 28)
+		x, y := r.In(0, (int64(1)<<uint(h))-2), r.In(0, (int64(1)<<uint(h))-1)
+		ids := []string{ID{h, x, y, v1, f1}.String(), ID{h, x + 1, y, v2, f2}.String()}
+		if r.Chance(0.3) {
+			ids = append(ids, ID{h, x, y, r.In(22, 27), r.In(-40, 40)}.String())
+		}
+		r.Shuffle(len(ids), func(i, j int) { ids[i], ids[j] = ids[j], ids[i] })
+		E, O := int64(25), r.Pick(1<<24, 1<<24, 0, 1<<25)
+		hz, az := r.In(max(1, h-2), h), r.In(2, 10)
+		unionLaw(t, "AltitudeKeyListIsUnionOfMembers", map[string]any{"ids": ids, "hz": hz, "az": az, "E": E, "O": O}, len(ids), func(idx []int) ([]string, string) {
+			sub := []string{}
+			for _, j := range idx {
+				sub = append(sub, ids[j])
+			}
+			o, res := guard(func() (any, error) {
+				return transform.ConvertExtendedSpatialIDsToQuadkeysAndAltitudekeys(sub, hz, az, E, O)
+			})
+			if o != "ok" {
+				return nil, "outcome " + o
+			}
+			ss := []string{}
+			for _, g := range res.([]*object.FromExtendedSpatialIDToQuadkeyAndAltitudekey) {
+				for _, p := range g.InnerIDList() {
+					ss = append(ss, fmt.Sprintf("%d/%d:%d/%d", g.QuadkeyZoom(), p[0], g.AltitudekeyZoom(), p[1]))
+				}
 			}
 			return ss, ""
 		})
